@@ -57,6 +57,10 @@ type Subscription struct {
 	// req is the requests that we are responding to
 	req SubscribeRequest
 
+	// lastIndex is the highest index delivered so far. It is only accessed by
+	// Next, which must not be called concurrently.
+	lastIndex uint64
+
 	// currentItem stores the current snapshot or topic buffer item we are on. It
 	// is mutated by calls to Next.
 	currentItem *bufferItem
@@ -130,6 +134,17 @@ func (s *Subscription) Next(ctx context.Context) (Event, error) {
 		s.currentItem = next
 		if len(next.Events) == 0 {
 			continue
+		}
+		// A batch that was committed before our snapshot was taken can still be
+		// handed to the publisher afterwards (the snapshot reads the state store,
+		// which is ahead of the publish queue). Its changes are already part of
+		// the snapshot; delivering it would make the delivered index go backwards.
+		first := next.Events[0]
+		if !first.IsFramingEvent() && first.Index != 0 && first.Index < s.lastIndex {
+			continue
+		}
+		if first.Index > s.lastIndex {
+			s.lastIndex = first.Index
 		}
 		return newEventFromBatch(s.req, next.Events), nil
 	}
